@@ -392,12 +392,38 @@ def run(ctx: Context, R: Reporter):
     R.guard(rule_c, ctx, R, F)
 
 
+def _class_cache_variant(relpath, benign=False):
+    """class body gains `_len_cache = {}` and get_history_length() stores into it through self"""
+    from ..variants import edit
+
+    def fn(node, tree):
+        for c in ast.walk(tree):
+            if isinstance(c, ast.ClassDef) and c.name == "StateManager":
+                if benign:  # an immutable class-level table that a method only reads
+                    c.body.insert(1, ast.parse("_KINDS = ('u', 'x')").body[0])
+                    for m in c.body:
+                        if isinstance(m, ast.FunctionDef) and m.name == "get_history_length":
+                            m.body.insert(1 if isinstance(m.body[0], ast.Expr) else 0, ast.parse("kinds = self._KINDS").body[0])
+                            return True
+                    return False
+                c.body.insert(1, ast.parse("_len_cache = {}").body[0])
+                for m in c.body:
+                    if isinstance(m, ast.FunctionDef) and m.name == "get_history_length":
+                        m.body.insert(1 if isinstance(m.body[0], ast.Expr) else 0, ast.parse("self._len_cache['n'] = 1").body[0])
+                        return True
+        return False
+
+    return edit(relpath, None, fn)
+
+
 def variants():
-    from ..variants import Variant, alpha_rename, delete_stmt, edit, insert_after, insert_before, replace_expr, replace_stmt
+    from ..variants import Variant, alpha_rename, chain, delete_stmt, edit, insert_after, insert_before, insert_before_function, replace_expr, replace_stmt
 
     sm = "tempest/state_manager.py"
     core = "tempest/core.py"
     return [
+        Variant("z-class-level-cache-shared-by-instances", "bad", _class_cache_variant(sm), ["C17.z"], quick=True),
+        Variant("z-benign-class-level-constant", "benign", _class_cache_variant(sm, benign=True)),
         Variant("d-copy-flag-carried-over-entries", "bad", replace_stmt(sm, "StateManager.update_current", "self._current[key] = self._ensure_copy(value) if copy else value", "copy = copy and isinstance(value, np.ndarray)\nself._current[key] = value.copy() if copy else value"), ["C17.d"], quick=True),
         Variant("d-benign-per-entry-flag", "benign", replace_stmt(sm, "StateManager.update_current", "self._current[key] = self._ensure_copy(value) if copy else value", "copy_this = copy and isinstance(value, np.ndarray)\nself._current[key] = value.copy() if copy_this else value")),
         Variant("c-validate-while-appending", "bad", insert_after(sm, "StateManager.commit_current_to_history", "value = self._current[current_key]", "if strict and value is None:\n    raise ValueError('missing')"), ["C17.c"], quick=True),
